@@ -88,6 +88,24 @@ type ParseResult struct {
 	Err  string
 }
 
+// Parser is one parser object that serves many inputs (the object Expr keeps is used that way).
+type Parser interface {
+	Parse(toks []*token.Token) ast.Expr
+}
+
+func NewParser(ops []oper.Operator) Parser { return parser.NewParser(append([]oper.Operator(nil), ops...)) }
+
+// ParseWith parses with a given (possibly used before) parser object.
+func ParseWith(p Parser, toks []*token.Token) (r ParseResult) {
+	defer func() {
+		if e := recover(); e != nil {
+			r.Tree, r.Err = nil, fmt.Sprint(e)
+		}
+	}()
+	r.Tree = p.Parse(toks)
+	return
+}
+
 func ParseToks(ops []oper.Operator, toks []*token.Token) (r ParseResult) {
 	defer func() {
 		if e := recover(); e != nil {
